@@ -8,4 +8,6 @@ CONSTANTS
   Lifecycle = "separate"
   SecondCheck = TRUE
   Filter = FALSE
+  MaxFail = 0
+  GiveBack = FALSE
 INVARIANTS AtMostOnce
